@@ -72,6 +72,18 @@ def _basic(sa_name):
     return b
 
 
+def _basic_bool():
+    """the one-bit fields of the basic list given as the bool True (an int subclass), the others symbolic"""
+    kw = leaves(PO + "._basic_parameter_list_bits", "pr", skip=("spec_i_pt",))
+    for k, v in list(kw.items()):
+        if getattr(v, "bits", None) is not None and len(v.bits) == 1:
+            kw[k] = True
+    img = Image(24)
+    img.put_table(PO + "._basic_parameter_list_bits", kw)
+    return kw, img
+
+
+pr_case("PR OUT RESERVE, basic list with its flags given as True", 1, _basic_bool)
 for _sa, _nm in ((0, "REGISTER"), (1, "RESERVE"), (2, "RELEASE"), (3, "CLEAR"), (4, "PREEMPT"), (5, "PREEMPT AND ABORT"), (6, "REGISTER AND IGNORE EXISTING KEY")):
     pr_case("PR OUT %s, basic list" % _nm, _sa, _basic(_nm))
 
